@@ -947,7 +947,8 @@ def l2_stage(chk, name, consts, sample=60):
         shutil.rmtree(wd, ignore_errors=True)
 
 
-L2_BASE = dict(Keys={1, 2}, WS1=set(), WS2=set(), L1="RC", L2="RR", WithR=False, WithW=False, WithA=False, WithG=False, WKey=1, OldVersions=1)
+L2_BASE = dict(Keys={1, 2}, WS1=set(), WS2=set(), L1="RC", L2="RR", WithR=False, WithW=False, WithA=False, WithG=False, WKey=1, OldVersions=1,
+               RangeDraw=bool([f for f in vlib.known_findings().get("fixed", []) if f.get("signature") == "begin-between-commit-draws"]))
 
 
 def c06(chk):
